@@ -198,6 +198,13 @@ func runC11(o *opts) error {
 		stats["E"]++
 	}
 
+	qenv, err := c11qOpen(o.out)
+	if err != nil {
+		return err
+	}
+	defer qenv.close()
+	qgen := &c11qGen{env: qenv, cases: cases, impl: impl, stats: stats}
+
 	if rc := o.get("replaycase", ""); rc != "" {
 		// replay: re-run exactly the given case lines
 		data, err := os.ReadFile(rc)
@@ -218,6 +225,8 @@ func runC11(o *opts) error {
 				emitB(unhx(f[1]))
 			case "E":
 				emitE(f[1], f[2], unhx(f[3]))
+			case "Q":
+				qgen.emitFields(f[1:])
 			}
 		}
 		return nil
@@ -281,6 +290,8 @@ func runC11(o *opts) error {
 			emitE([]string{"eq", "neq", "in", "contains"}[r.intn(4)], []string{"min", "full"}[r.intn(2)], s)
 		}
 	}
+	// stream Q: keyword-spelling and boundary values against stored values, through the store path
+	qgen.all(o, r)
 	writeJSON(o.out, "stats.json", stats)
 	return nil
 }
